@@ -10,6 +10,10 @@ Regenerates, from the C++ source TEXT of the tree under check,
         (bulk_cancellation_chunk_size; `_schedule_receiver::set_value`: outer chunk loop, chunk_end,
          the four inner index loops, the two unchunked loops)
 
+  lean/UnifexModel/Generated/BulkPolicy.lean     from include/unifex/bulk_transform.hpp (the get_execution_policy customisation
+        of tfx_receiver: allowUnsequenced / allowParallel / the if-constexpr chain), bulk_join.hpp (the constant policy of the
+        join receiver), get_execution_policy.hpp (the default) and bulk_schedule.hpp (which policies select the vectorised loop)
+
 How: the function body is compared, after removing comments / preprocessor lines / whitespace, with a
 SKELETON (below) whose holes «name» stand for the arithmetic.  Everything outside the holes must be
 literally the skeleton (statement structure, which loop nests in which, where the stop check and the
@@ -430,14 +434,14 @@ void set_value() noexcept(is_nothrow_receiver_of_v<Receiver>&& is_nothrow_next_r
     for (Integral chunk_start(«outer_init»); «outer_cond»; «outer_step») {
       if (stop_token.stop_requested()) { unifex::set_done(std::move(receiver_)); return; }
       Integral chunk_end = «chunk_end»;
-      if constexpr (is_one_of_v<policy_t, unsequenced_policy, parallel_unsequenced_policy>) {
+      if constexpr («vec_stop») {
         %s
       } else {
         %s
       }
     }
   } else {
-    if constexpr (is_one_of_v<policy_t, unsequenced_policy, parallel_unsequenced_policy>) {
+    if constexpr («vec_plain») {
       %s
     } else {
       %s
@@ -481,6 +485,137 @@ def gen_bulk(repo):
     return text, {**hc, **h}
 
 
+
+# ------------------------------------------------------------------------------------------------ execution policies
+POLICY_TYPES = {"sequenced_policy": "seq", "unsequenced_policy": "unseq", "parallel_policy": "par", "parallel_unsequenced_policy": "par_unseq"}
+POLICY_OBJECTS = {"seq", "unseq", "par", "par_unseq"}
+
+TFX_POLICY = """
+friend auto tag_invoke(tag_t<get_execution_policy>, const type& r) noexcept {
+  using receiver_policy = decltype(get_execution_policy(r.receiver_));
+  constexpr bool allowUnsequenced = «allowUnsequenced»;
+  constexpr bool allowParallel = «allowParallel»;
+  if constexpr («c1») { return unifex::«r1»; }
+  else if constexpr («c2») { return unifex::«r2»; }
+  else if constexpr («c3») { return unifex::«r3»; }
+  else { return unifex::«r4»; }
+}
+"""
+JOIN_POLICY = """
+friend constexpr unifex::«join_policy» tag_invoke(tag_t<get_execution_policy>, [[maybe_unused]] const type& r) noexcept { return {}; }
+"""
+DEFAULT_POLICY = """
+template(typename PolicyProvider) (requires(!tag_invocable<_fn, const PolicyProvider&>))
+constexpr «default_policy» operator()([[maybe_unused]] const PolicyProvider&) const noexcept { return {}; }
+"""
+POLTOK = re.compile(r"(is_one_of_v<[^<>]*>|&&|\|\||!|\(|\)|[A-Za-z_][A-Za-z0-9_:]*)")
+
+
+def policy_type(name, what):
+    n = name[8:] if name.startswith("unifex::") else name
+    if n not in POLICY_TYPES:
+        raise TranslateError(f"{what}: `{name}` is not one of the four execution policy types")
+    return "Policy." + POLICY_TYPES[n]
+
+
+def policy_object(name, what):
+    if name not in POLICY_OBJECTS:
+        raise TranslateError(f"{what}: `unifex::{name}` is not one of the four execution policy objects")
+    return "Policy." + name
+
+
+class PolicyExpr:
+    """boolean expressions over is_one_of_v<subject, policy types…>, && || ! ( ) and the boolean locals in scope"""
+
+    def __init__(self, text, subjects, bools, what):
+        self.toks = POLTOK.findall(text)
+        if "".join(self.toks) != text:
+            raise TranslateError(f"{what}: cannot tokenize `{text}` (outside the translated subset)")
+        self.i, self.subjects, self.bools, self.what, self.text = 0, subjects, bools, what, text
+
+    def peek(self):
+        return self.toks[self.i] if self.i < len(self.toks) else None
+
+    def parse(self):
+        e = self.or_()
+        if self.peek() is not None:
+            raise TranslateError(f"{self.what}: unexpected `{self.peek()}` in `{self.text}`")
+        return e
+
+    def or_(self):
+        e = self.and_()
+        while self.peek() == "||":
+            self.i += 1
+            e = f"({e} || {self.and_()})"
+        return e
+
+    def and_(self):
+        e = self.un()
+        while self.peek() == "&&":
+            self.i += 1
+            e = f"({e} && {self.un()})"
+        return e
+
+    def un(self):
+        t = self.peek()
+        if t is None:
+            raise TranslateError(f"{self.what}: truncated expression `{self.text}`")
+        self.i += 1
+        if t == "!":
+            return f"(!{self.un()})"
+        if t == "(":
+            e = self.or_()
+            if self.peek() != ")":
+                raise TranslateError(f"{self.what}: `)` expected in `{self.text}`")
+            self.i += 1
+            return e
+        if t.startswith("is_one_of_v<"):
+            args = t[len("is_one_of_v<"):-1].split(",")
+            if len(args) < 2 or args[0] not in self.subjects:
+                raise TranslateError(f"{self.what}: is_one_of_v over `{args[0]}` (outside the translated subset)")
+            return f"(isOneOf {self.subjects[args[0]]} [{', '.join(policy_type(a, self.what) for a in args[1:])}])"
+        if t in self.bools:
+            return self.bools[t]
+        raise TranslateError(f"{self.what}: unknown identifier `{t}` in `{self.text}` (outside the translated subset)")
+
+
+def gen_policy(repo):
+    inc = os.path.join(repo, "include", "unifex")
+    h = match_skeleton(strip_source(open(os.path.join(inc, "bulk_transform.hpp")).read()), TFX_POLICY, "bulk_transform.hpp get_execution_policy customisation")
+    hj = match_skeleton(strip_source(open(os.path.join(inc, "bulk_join.hpp")).read()), JOIN_POLICY, "bulk_join.hpp get_execution_policy customisation")
+    hd = match_skeleton(strip_source(open(os.path.join(inc, "get_execution_policy.hpp")).read()), DEFAULT_POLICY, "get_execution_policy.hpp default")
+    hb = match_skeleton(strip_source(open(os.path.join(inc, "bulk_schedule.hpp")).read()), BULK_BODY, "bulk_schedule.hpp _schedule_receiver::set_value")
+    subj = {"receiver_policy": "receiver_policy", "Policy": "func_policy"}
+    P2 = "(receiver_policy func_policy : Policy)"
+    app = lambda n: f"({n} receiver_policy func_policy)"
+    L = []
+    L.append("/-- `get_execution_policy(x)` for an `x` without customisation (get_execution_policy.hpp) -/")
+    L.append(f"def default_policy : Policy := {policy_type(hd['default_policy'], 'get_execution_policy.hpp default')}")
+    L.append("/-- the policy the bulk_join receiver advertises (bulk_join.hpp) -/")
+    L.append(f"def join_policy : Policy := {policy_type(hj['join_policy'], 'bulk_join.hpp')}")
+    for name in ("allowUnsequenced", "allowParallel"):
+        e = PolicyExpr(h[name], subj, {}, f"bulk_transform.hpp «{name}»").parse()
+        L.append(f"/-- `constexpr bool {name} = …;`  (receiver_policy = the downstream receiver's policy, func_policy = template parameter `Policy`) -/")
+        L.append(f"def {name} {P2} : Bool := {e}")
+    bools = {"allowUnsequenced": app("allowUnsequenced"), "allowParallel": app("allowParallel")}
+    cs = [PolicyExpr(h[c], subj, bools, f"bulk_transform.hpp «{c}»").parse() for c in ("c1", "c2", "c3")]
+    rs = [policy_object(h[r], f"bulk_transform.hpp «{r}»") for r in ("r1", "r2", "r3", "r4")]
+    L.append("/-- the `if constexpr … return unifex::…;` chain: the policy bulk_transform's receiver advertises to its source -/")
+    L.append(f"def tfx_policy {P2} : Policy :=\n  if {cs[0]} then {rs[0]} else if {cs[1]} then {rs[1]} else if {cs[2]} then {rs[2]} else {rs[3]}")
+    for name, hole, cm in (("schedule_vectorised_stop", "vec_stop", "chunked loop"), ("schedule_vectorised_plain", "vec_plain", "unchunked loop")):
+        e = PolicyExpr(hb[hole], {"policy_t": "policy_t"}, {}, f"bulk_schedule.hpp «{hole}»").parse()
+        L.append(f"/-- bulk_schedule.hpp, {cm}: `if constexpr (…)` selecting the vectorisable (`#pragma ivdep`) variant; policy_t = the receiver's policy -/")
+        L.append(f"def {name} (policy_t : Policy) : Bool := {e}")
+    notes = ("  Policies are the constructors of Proto/PolicyLattice.Policy; `is_one_of_v<P, A, B>` ↦ `isOneOf P [A, B]`;\n"
+             "  `receiver_policy` = decltype(get_execution_policy(r.receiver_)), `func_policy` = the `Policy` template argument of\n"
+             "  bulk_transform (the policy given for the function).  Everything outside the «holes» is the literal skeleton.")
+    text = HEADER.format(src="include/unifex/bulk_transform.hpp, bulk_join.hpp, get_execution_policy.hpp, bulk_schedule.hpp (execution-policy computations)", notes=notes, ns="BulkPolicy")
+    text = text.replace("set_option linter.unusedVariables false\n", "import UnifexModel.Proto.PolicyLattice\nset_option linter.unusedVariables false\n")
+    text = text.replace("namespace Unifex.Generated.BulkPolicy\n", "namespace Unifex.Generated.BulkPolicy\nopen Unifex.Proto.PolicyLattice\n")
+    text += "\n".join(L) + "\n\nend Unifex.Generated.BulkPolicy\n"
+    return text, {**h, **hj, **hd, "vec_stop": hb["vec_stop"], "vec_plain": hb["vec_plain"]}
+
+
 # ------------------------------------------------------------------------------------------------ driver
 def translate(repo, lean_dir, write=True):
     """returns dict(changed=[files whose text changed], holes={...}); raises TranslateError"""
@@ -488,7 +623,7 @@ def translate(repo, lean_dir, write=True):
     os.makedirs(outdir, exist_ok=True)
     res = dict(changed=[], holes={})
     errors = []
-    for fn, gen in (("FindIfChunks.lean", gen_findif), ("BulkLoop.lean", gen_bulk)):
+    for fn, gen in (("FindIfChunks.lean", gen_findif), ("BulkLoop.lean", gen_bulk), ("BulkPolicy.lean", gen_policy)):
         try:
             text, holes = gen(repo)
         except TranslateError as e:      # the other file is still regenerated; this one keeps its previous text
